@@ -271,6 +271,13 @@ func c15Batch(w *Worker, cases []*genCase, name string) {
 		for k, in := range h {
 			w.Count("history_parses", 1)
 			want := e.o.predict(m, in)
+			if rs[k].Later != "" {
+				w.Violate("C15|result-changed-by-later-parse|"+v+"|"+mode+"|"+key+"|"+strings.Join(h, ","),
+					fmt.Sprintf("parse %d of the history %q on the %s parser (%s) of grammar [%s]: Parser(%q) returned the value %d/%q; after the later parses of the history the same returned value reads %s",
+						k+1, h, v, mode, key, in, rs[k].N, rs[k].S, rs[k].Later),
+					&GCase{Origin: "c15", Extra: mustJSON(e.o.c)}, map[string]interface{}{"history": h, "variant": v, "mode": mode})
+				return
+			}
 			if sameResult(&want, &rs[k]) {
 				w.Count("history_parses_equal_to_solo", 1)
 				continue
